@@ -22,7 +22,7 @@ def namespaces_of(t, acc=None):
     for k in t[3]: namespaces_of(k, acc)
     return acc
 
-def serialise(t, prefixes=None, default_ns=None, newline_decls=False, rename=None, local_decls=False):
+def serialise(t, prefixes=None, default_ns=None, newline_decls=False, rename=None, local_decls=False, spaced_eq=False):
     """XML text of a notation tree. prefixes: {ns: prefix} (generated if missing); default_ns: a namespace written without
     prefix on elements; rename: function prefix -> prefix; local_decls: declare each namespace where first used instead of on the root"""
     nss = namespaces_of(t)
@@ -47,8 +47,9 @@ def serialise(t, prefixes=None, default_ns=None, newline_decls=False, rename=Non
                 if ns and ns != XMLNS and ns not in declared and ns not in need: need.append(ns)
         decl = []
         for ns in need:
-            if ns == default_ns: decl.append('xmlns="%s"' % esc_attr(ns))
-            decl.append('xmlns:%s="%s"' % (pm[ns], esc_attr(ns)))
+            eq = ' = ' if spaced_eq else '='
+            if ns == default_ns: decl.append('xmlns%s"%s"' % (eq, esc_attr(ns)))
+            decl.append('xmlns:%s%s"%s"' % (pm[ns], eq, esc_attr(ns)))
         declared = declared | set(need)
         if root and default_ns and not need: decl.append('xmlns="%s"' % esc_attr(default_ns))
         sep = '\n    ' if newline_decls else ' '
